@@ -20,6 +20,11 @@ Relational oracles (driver, on results of real calls):
   triangle      d(A,C) <= d(A,B) + d(B,C)
   dispatch      compare_rotations(rotation_type=t) returns the distance named t (= the direct call on the same input)
   n2e_roundtrip euler_angles_to_normals(normals_to_euler_angles(v)) = v/|v|
+  history       three-step histories: call with caller-owned ndarray A (and B); A updated IN PLACE (same object); call again -
+                angular_distance, cone_inplane_distance, compare_rotations, visualize_angles, euler_angles_to_normals,
+                normals_to_euler_angles (ndarray and DataFrame): the third step must equal the call on fresh copies of the current
+                values / the ground truth of the current values (the call monitors judge every step against the current content
+                too); new objects that may reuse the id of a freed array / Rotation (cone_distance, inplane_distance)
 """
 import numpy as np
 
@@ -33,7 +38,9 @@ RULE = ("cases = (a) triples of rotation batches A,B,C (n = 1..500) plus one com
         "the 45-degree Euler lattice, q/-q double cover, wide Euler angles, geodesic triples (triangle equality), single "
         "rotations and big batches, passed as scipy Rotation objects (from own matrices / own quaternions) or Euler arrays; "
         "(b) batches of normals (random, axis-aligned, +-z, y = 0 or x = 0 exactly, lengths 1e-150..1e150, DataFrame, "
-        "integer dtype); non-trivial = not all of A,B,C are the identity (a) / some normal not parallel to +z (b); "
+        "integer dtype, representability-boundary components); planted in every run: theta outside [0,180] and phi/psi outside "
+        "[-180,180], gimbal lock +- 1 ulp / 1e-9..5e-7, batch sizes 2**k-1, 2**k, 2**k+1 and 499/500, float32 / int64 Euler arrays, "
+        "exact duplicate rows, +-z rows in every kind of normals batch; non-trivial = not all of A,B,C are the identity (a) / some normal not parallel to +z (b); "
         "distinct by digest of (class, n, input forms, Q kind, first rows of the inputs)")
 ASSUMPTIONS = [
     "orientation of an Euler triple (phi,theta,psi), convention 'zxz' in degrees, is R = Rz(psi).Rx(theta).Rz(phi) (DESIGN.md section 3)",
@@ -43,14 +50,25 @@ ASSUMPTIONS = [
     "angle tolerance: min(1e-4, 1e-9 + 1e-9/dist_to_0_or_180) degrees (acos conditioning; measured error of the current code "
     "<= 4.2e-6 deg at the ends, <= 1e-11 deg mid-range); 'zero for equal rotations' is judged as <= 1e-4 deg",
     "vector clauses (unit length, z-axis image) are judged to 1e-9 absolute per component (measured error 1e-15)",
-    "normals: every row finite, non-zero, largest component in [1e-150, 1e150] (squares representable in IEEE double)",
+    "normals: every row finite, non-zero, largest component in [1e-150, 1e150] (squares representable in IEEE double); float64 or "
+    "integer arrays / numeric DataFrame columns (a float32 array is processed by numpy in float32 and cannot meet the 1e-9 vector tolerance: not judged)",
     "calls with c_symmetry != 1, convention != 'zxz', degrees != True or unequal batch sizes are outside the property (counted, not judged)",
 ]
 
 ROT_CLASSES = ["random", "identical", "near_identical", "antipodal", "gimbal", "near_gimbal", "cube24", "lattice45",
-               "double_cover", "wide_euler", "geodesic", "single", "big_batch"]
-NRM_CLASSES = ["normals_random", "normals_axis", "normals_pmz", "normals_y0", "normals_scaled", "normals_df", "normals_int"]
-CLASSES = ROT_CLASSES + NRM_CLASSES          # 20 classes
+               "double_cover", "wide_euler", "noncanonical_euler", "boundary_euler", "geodesic", "single", "big_batch"]
+NRM_CLASSES = ["normals_random", "normals_axis", "normals_pmz", "normals_y0", "normals_scaled", "normals_df", "normals_int",
+               "normals_boundary"]
+CLASSES = ROT_CLASSES + NRM_CLASSES          # 23 classes
+
+# planted values (round 5): gimbal lock and its floating-point neighbours, values 1e-9..5e-7 away from a special angle, angles whose
+# text form is unusual, adjacent integers just above 1e5, full turns
+_NA = np.nextafter
+THETA_POOL = np.array([0.0, -0.0, 180.0, _NA(180.0, 0.0), _NA(180.0, 360.0), _NA(0.0, 1.0), 1e-9, 1e-7, 5e-7, 3e-06, 1e-5,
+                       180.0 - 1e-7, 180.0 - 5e-7, 179.999999, 90.0, _NA(90.0, 0.0), 360.0, -180.0, 540.0, -90.0, 270.0, 45.0, 0.5])
+PHI_POOL = np.array([0.0, -0.0, 180.0, -180.0, _NA(180.0, 0.0), _NA(-180.0, 0.0), _NA(180.0, 360.0), 360.0, -360.0, 1e-9, 3e-06,
+                     5e-7, 45.0, 90.0, 270.0, 100001.0, 100002.0, 16777217.0, 0.5, 179.9999995, -179.9999995])
+BLOCK_SIZES = [63, 64, 65, 127, 128, 129, 255, 256, 257, 499, 500]      # 2**k-1, 2**k, 2**k+1 up to the largest batch of the quantifier
 
 VEC_TOL = 1e-9
 ZERO_TOL = 1e-4
@@ -64,14 +82,14 @@ def plan(tier):
     # direct calls produce (measured with VERIF_BYPASS_INTERNAL=1, i.e. with the monitors blind to calls made from inside the cryocat
     # package), so the effective floor is ~80% of the driver-only count and holds whatever cryoCAT's internal call structure is.
     if tier == "quick":
-        return dict(n_cases=1200, shards=1, classes=CLASSES, timeout_s=600,
-                    min_evals={"angdist": 11500, "cone": 7600, "inplane": 8900, "cone_inplane": 6100, "compare": 8700,
-                               "e2n": 5100, "n2e": 1350, "viz": 7500, "symmetry": 1280, "zero_equal": 14500, "invariance": 2550,
-                               "triangle": 1280, "dispatch": 5100, "n2e_roundtrip": 1340})
+        return dict(n_cases=1380, shards=1, classes=CLASSES, timeout_s=900,
+                    min_evals={"angdist": 21900, "cone": 11600, "inplane": 13100, "cone_inplane": 14300, "compare": 18800,
+                               "e2n": 8700, "n2e": 3050, "viz": 11600, "symmetry": 1470, "zero_equal": 17000, "invariance": 2900,
+                               "triangle": 1470, "dispatch": 5900, "n2e_roundtrip": 1530, "history": 10800})
     return dict(n_cases=16000, shards=16, classes=CLASSES, timeout_s=3000,
-                min_evals={"angdist": 150000, "cone": 99000, "inplane": 116000, "cone_inplane": 82000, "compare": 115000,
-                           "e2n": 67000, "n2e": 17900, "viz": 100000, "symmetry": 16600, "zero_equal": 196000,
-                           "invariance": 33000, "triangle": 16600, "dispatch": 66000, "n2e_roundtrip": 17900})
+                min_evals={"angdist": 251000, "cone": 133000, "inplane": 150000, "cone_inplane": 166000, "compare": 216000,
+                           "e2n": 101000, "n2e": 35500, "viz": 134000, "symmetry": 16700, "zero_equal": 198000,
+                           "invariance": 33000, "triangle": 16700, "dispatch": 66900, "n2e_roundtrip": 17700, "history": 125000})
 
 
 # ---- reading the inputs of an observed call ----------------------------------------------------------
@@ -354,7 +372,8 @@ def _normals_arg(x):
             v = x.loc[:, ["x", "y", "z"]].to_numpy(dtype=float)
         except Exception:
             return None
-    elif isinstance(x, np.ndarray) and x.ndim == 2 and x.shape[1] == 3 and x.dtype.kind in "fiu" and len(x) > 0:
+    elif (isinstance(x, np.ndarray) and x.ndim == 2 and x.shape[1] == 3 and len(x) > 0
+          and (x.dtype == np.float64 or x.dtype.kind in "iu")):      # float32/float16 arrays: numpy computes in that precision, not judged
         v = np.asarray(x, dtype=float)
     else:
         return None
@@ -447,7 +466,7 @@ def setup(ctx):
     f_ne = monitors.wrap(ctx, geom, "normals_to_euler_angles", "n2e", _n2e_post, _n2e_applicable, _n2e_snapshot)
     f_vr = monitors.wrap(ctx, geom, "visualize_rotations", "viz", _vr_post, _vr_applicable, _vr_snapshot)
     f_va = monitors.wrap(ctx, geom, "visualize_angles", "viz", _va_post, _e2n_applicable, _e2n_snapshot)
-    ctx.declare("symmetry", "zero_equal", "invariance", "triangle", "dispatch", "n2e_roundtrip")
+    ctx.declare("symmetry", "zero_equal", "invariance", "triangle", "dispatch", "n2e_roundtrip", "history")
     monitors.trace(ctx, [
         ("angular_distance", f_ad, {"euler_in1": "rot1 = srot.from_euler(convention, input_rot1", "rot_in1": "rot1 = input_rot1",
                                     "euler_in2": "rot2 = srot.from_euler(convention, input_rot2", "rot_in2": "rot2 = input_rot2",
@@ -528,6 +547,28 @@ def _triple(rng, kind, n):
         return X(q=q), X(q=qb), X(q=q3)
     if kind == "wide_euler":
         return tuple(X(E=rng.uniform(-720, 720, (n, 3))) for _ in range(3))
+    if kind == "noncanonical_euler":        # theta outside [0,180] (negative, 180..360, below -180), phi/psi outside [-180,180]
+        res = []
+        for _ in range(3):
+            th = np.where(rng.random(n) < 0.5, rng.uniform(-180.0, 0.0, n), rng.uniform(180.0, 360.0, n))
+            far = rng.random(n) < 0.25
+            th = np.where(far, rng.uniform(-360.0, -180.0, n), th)
+            E = np.column_stack([rng.choice([-1.0, 1.0], n) * rng.uniform(180.0, 720.0, n), th,
+                                 rng.choice([-1.0, 1.0], n) * rng.uniform(180.0, 720.0, n)])
+            res.append(X(E=E))
+        return tuple(res)
+    if kind == "boundary_euler":
+        res = []
+        for k in range(3):
+            E = np.column_stack([rng.choice(PHI_POOL, n), rng.choice(THETA_POOL, n), rng.choice(PHI_POOL, n)])
+            if k and n > 1:                     # half of the rows of B, C: the row of A with ONE component moved to a pool neighbour
+                m = rng.random(n) < 0.5
+                E[m] = res[0]["E"][m]
+                col = rng.integers(0, 3, n)
+                for j in np.flatnonzero(m):
+                    E[j, col[j]] = rng.choice(THETA_POOL if col[j] == 1 else PHI_POOL)
+            res.append(X(E=E))
+        return tuple(res)
     if kind == "geodesic":
         A = R()
         ax = _rand_axes(rng, n)
@@ -537,7 +578,8 @@ def _triple(rng, kind, n):
     raise ValueError(kind)
 
 
-MIX_KINDS = ["random", "identical", "near_identical", "antipodal", "gimbal", "near_gimbal", "cube24", "lattice45", "wide_euler", "geodesic"]
+MIX_KINDS = ["random", "identical", "near_identical", "antipodal", "gimbal", "near_gimbal", "cube24", "lattice45", "wide_euler",
+             "noncanonical_euler", "boundary_euler", "geodesic"]
 
 
 def _mixed_triple(rng, n):
@@ -557,7 +599,10 @@ def _pick_n(rng, cls, tier):
         return 1
     if cls == "big_batch":
         return int(rng.integers(300, 501))
-    if rng.random() < 0.5:
+    u = rng.random()
+    if u < 0.2:
+        return int(rng.choice(BLOCK_SIZES))
+    if u < 0.55:
         return int(rng.choice([1, 2, 3, 5, 8, 17, 64, 150] if tier == "quick" else [1, 2, 4, 9, 33, 128, 257, 500]))
     return int(rng.integers(1, 61 if tier == "quick" else 201))
 
@@ -576,7 +621,24 @@ def _gen_rot(ctx, rng, i, cls):
         if X["E"] is None:
             E = O.mats_to_euler(X["M"])
             E = E + 360.0 * rng.integers(-1, 2, E.shape) * (rng.random(E.shape) < 0.3)
+            # the same rotation written with theta outside [0,180]: (phi+180, -theta, psi+180) or (phi+180, 360-theta, psi+180)
+            alt = rng.random(len(E)) < 0.3
+            neg = rng.random(len(E)) < 0.5
+            E[alt, 0] += 180.0
+            E[alt, 2] += 180.0
+            E[alt, 1] = np.where(neg[alt], -E[alt, 1], 360.0 - E[alt, 1])
             X["E_derived"] = E
+    # exact duplicates: one row repeated inside the batch (same row pair in A, B and C)
+    if n >= 2 and rng.random() < 0.4:
+        j0, j1 = (int(v) for v in rng.choice(n, 2, replace=False))
+        for X in tr:
+            for key in ("M", "E", "q", "E_derived"):
+                if X.get(key) is not None:
+                    X[key][j1] = X[key][j0]
+    # dtype of Euler arrays handed to cryoCAT (the expected value is computed from the cast values)
+    edt = str(rng.choice(["float64", "float64", "float64", "float32", "int64"]))
+    for X in tr:
+        X["dtype"] = edt
     qk = str(rng.choice(["haar", "haar", "cube", "tiny", "pi", "to_identity", "gimbal"]))
     if qk == "haar":
         Q = so3.random_rotations(rng, 1)[0]
@@ -594,7 +656,7 @@ def _gen_rot(ctx, rng, i, cls):
         forms = [str(rng.choice(["single_rot", "single_euler", "single_quat"])) for _ in range(3)]
     elif cls == "double_cover":
         forms = ["quat"] * 3
-    elif cls in ("gimbal", "near_gimbal", "lattice45", "wide_euler"):
+    elif cls in ("gimbal", "near_gimbal", "lattice45", "wide_euler", "noncanonical_euler", "boundary_euler"):
         forms = [str(rng.choice(["euler", "euler", "rot", "quat"])) for _ in range(3)]
     else:
         forms = [str(rng.choice(["rot", "euler", "quat"])) for _ in range(3)]
@@ -603,7 +665,7 @@ def _gen_rot(ctx, rng, i, cls):
     e0 = [(X["E"] if X["E"] is not None else X["E_derived"])[:2].round(6).tolist() for X in tr]
     return {"kind": "rot", "cls": cls, "i": i, "n": n, "tr": tr, "Q": Q, "q_kind": qk, "forms": forms, "radius": radius,
             "nontrivial": not ident,
-            "summary": {"class": cls, "n": n, "forms": forms, "Q": qk, "radius": radius, "A_euler_head": e0[0], "B_euler_head": e0[1],
+            "summary": {"class": cls, "n": n, "forms": forms, "Q": qk, "radius": radius, "euler_dtype": edt, "A_euler_head": e0[0], "B_euler_head": e0[1],
                         "C_euler_head": e0[2]}}
 
 
@@ -635,6 +697,15 @@ def _gen_normals(ctx, rng, i, cls):
         v = rng.integers(-4, 5, (n, 3))
         v[np.all(v == 0, axis=1)] = [0, 0, 1]
         v = v.astype([np.int64, np.int32, np.int16][int(rng.integers(0, 3))])
+    elif cls == "normals_boundary":      # representability boundaries as component values (all exactly representable doubles)
+        f32 = np.finfo(np.float32)
+        top = np.float32(f32.max)
+        pool = np.array([0.0, -0.0, 1.0, 100001.0, 100002.0, 2.0 ** 24, 2.0 ** 24 + 1, 2.0 ** 31, 2.0 ** 53, float(top),
+                         float(np.nextafter(top, np.float32(0))), float(np.nextafter(np.nextafter(top, np.float32(0)), np.float32(0))),
+                         1e-40, 1.4e-45, float(f32.tiny), 3e-06, 1e+16, 0.5, float(np.nextafter(0.5, 0.0)), 1e-9, 5e-7, 2.5, 1e5])
+        v = rng.choice(pool, (n, 3)) * rng.choice([-1.0, 1.0], (n, 3))
+        m = rng.random(n) < 0.4                    # rows of comparable components (direction matters, not only the largest entry)
+        v[m] = rng.choice([100001.0, 100002.0, 2.0 ** 24, 2.0 ** 24 + 1, 1e5], (int(m.sum()), 3)) * rng.choice([-1.0, 1.0], (int(m.sum()), 3))
     else:  # normals_df
         v = rng.normal(size=(n, 3)) * 10.0 ** rng.uniform(-2, 2, (n, 1))
         k = rng.integers(0, 5, n)
@@ -643,6 +714,13 @@ def _gen_normals(ctx, rng, i, cls):
         v[k == 3, :2] = 0.0
         df_meta = {"order": [str(c) for c in rng.permutation(["x", "y", "z", "score", "tomo_id"])],
                    "index": "odd" if rng.random() < 0.5 else "range"}
+    if n >= 2 and rng.random() < 0.5:                    # planted: a normal exactly parallel to +z / -z inside every kind of batch
+        j = int(rng.integers(0, n))
+        L = rng.choice([1, 2, 3]) if v.dtype.kind in "iu" else rng.choice([1.0, 0.25, 1e3, 1e-6])
+        v[j] = np.array([0, 0, L * rng.choice([-1, 1])], dtype=v.dtype)
+    if n >= 2 and rng.random() < 0.4:                    # planted: exact duplicate rows
+        j0, j1 = (int(k) for k in rng.choice(n, 2, replace=False))
+        v[j1] = v[j0]
     bad = ~(np.max(np.abs(np.asarray(v, float)), axis=1) > 0)
     if bad.any():                                        # regenerate excluded (zero) rows
         v[bad] = np.array([0, 0, 1], dtype=v.dtype)
@@ -689,7 +767,12 @@ def present(ctx, X, form, rng):
     if E is None:
         E = O.mats_to_euler(M)
     E = np.array(E, dtype=float)
-    Mu = so3.zxz_rows(E)
+    dt = X.get("dtype", "float64")
+    if dt == "float32":
+        E = E.astype(np.float32)
+    elif dt == "int64" and np.all(E == np.round(E)) and np.all(np.abs(E) < 2.0 ** 53):
+        E = E.astype(np.int64)
+    Mu = so3.zxz_rows(np.asarray(E, dtype=float))           # the matrices of exactly the values handed over
     return (E[0].copy() if form.startswith("single_") else E), Mu
 
 
@@ -785,7 +868,117 @@ def equal_orientation_suite(ctx, E1, E2, single=False, label="alias"):
     return int(differ.sum())
 
 
-def pair_suite(ctx, rng, XA, XB, XC, Q, forms, radius=1.0, tag="", light=False):
+MUTATIONS = ["assign_all", "theta_shift", "one_row", "swap_rows", "make_equal", "psi_shift", "phi_tiny"]
+
+
+def mutate_in_place(A, B, new, kind, rng):
+    """Modifies the caller-owned array A IN PLACE (same object, same id); returns True when its content changed."""
+    before = A.copy()
+    if A.ndim == 1 and kind in ("one_row", "swap_rows"):
+        kind = "assign_all"
+    if kind == "swap_rows" and len(A) < 2:
+        kind = "assign_all"
+    if kind == "assign_all":
+        A[...] = new
+    elif kind == "theta_shift":
+        A[..., 1] += 10
+    elif kind == "psi_shift":
+        A[..., 2] -= 37
+    elif kind == "phi_tiny":
+        A[..., 0] += (1 if A.dtype.kind in "iu" else 0.125)
+    elif kind == "one_row":
+        j = int(rng.integers(0, len(A)))
+        A[j] = new[j]
+    elif kind == "swap_rows":
+        j, k = (int(v) for v in rng.choice(len(A), 2, replace=False))
+        A[[j, k]] = A[[k, j]]
+    elif kind == "make_equal":
+        A[...] = B
+    return not np.array_equal(before, A)
+
+
+def _flat(r):
+    if isinstance(r, tuple):
+        return np.concatenate([np.ravel(np.asarray(x, dtype=float)) for x in r])
+    return np.ravel(np.asarray(r, dtype=float))
+
+
+def history_suite(ctx, rng, E1, E2, E3, single, case_i):
+    """Three-step histories on caller-owned Euler arrays: call with A (and B); modify A (or B, or both) IN PLACE; call again with
+    the same objects.  Every call is judged by the call monitors against the values the arrays hold at that moment; the driver
+    additionally requires the third step to equal the same call on fresh copies of the current content (monitor `history`)."""
+    g = ctx.geom
+    cut = (lambda E: E[0].copy()) if single else (lambda E: E.copy())
+    rt = RTYPES[case_i % 4]
+    pair_fns = [("angular_distance", lambda A, B: g.angular_distance(A, B)),
+                ("cone_inplane_distance", lambda A, B: g.cone_inplane_distance(A, B)),
+                ("compare_rotations", lambda A, B: g.compare_rotations(A, B)),
+                ("compare_rotations(%s)" % rt, lambda A, B: g.compare_rotations(A, B, rotation_type=rt)),
+                ("angular_distance->cone_inplane_distance", None)]
+    for k, (name, f) in enumerate(pair_fns):
+        A, B, new = cut(E1), cut(E2), cut(E3)
+        kind = MUTATIONS[(case_i + k) % len(MUTATIONS)]
+        which = (case_i + k) % 3                      # 0: first argument, 1: second, 2: both
+        f1 = f if f is not None else (lambda A, B: g.angular_distance(A, B))
+        f3 = f if f is not None else (lambda A, B: g.cone_inplane_distance(A, B))
+        ok1, _ = ctx.call(name + " [history 1]", f1, A, B)
+        changed = False
+        if which in (0, 2):
+            changed |= mutate_in_place(A, B, new, kind, rng)
+        if which in (1, 2):
+            changed |= mutate_in_place(B, A, new[::-1].copy() if new.ndim == 2 else new, "assign_all" if kind == "make_equal" and which == 2 else kind, rng)
+        ok3, r3 = ctx.call(name + " [history 3]", f3, A, B)
+        okf, rf = ctx.call(name + " [fresh copies]", f3, A.copy(), B.copy())
+        if not (ok1 and ok3 and okf):
+            continue
+        if not changed:
+            ctx.ood("history")
+            continue
+        try:
+            v3, vf = _flat(r3), _flat(rf)
+            good = v3.shape == vf.shape and bool(np.all(np.abs(v3 - vf) <= 1e-9))
+            w = None
+            if not good:
+                j = int(np.flatnonzero(~(np.abs(v3 - vf) <= 1e-9))[0]) if v3.shape == vf.shape else None
+                w = {"call": name, "mutation": kind, "mutated": ["first", "second", "both"][which], "n": len(np.atleast_2d(A)),
+                     "clause": "result after an in-place update of the argument differs from the result for a fresh copy of the same values",
+                     "flat_index": j, "after_update": None if j is None else float(v3[j]), "fresh_copy": None if j is None else float(vf[j])}
+        except Exception as e:
+            good, w = False, {"call": name, "problem": "result not usable: %s" % type(e).__name__}
+        ctx.check("history", good, w)
+    # unary functions on an Euler array
+    for k, (name, f) in enumerate([("visualize_angles", lambda A: g.visualize_angles(A, False)),
+                                   ("euler_angles_to_normals", lambda A: g.euler_angles_to_normals(A))]):
+        A, B, new = cut(E1), cut(E2), cut(E3)
+        kind = MUTATIONS[(case_i + k + 3) % len(MUTATIONS)]
+        ok1, _ = ctx.call(name + " [history 1]", f, A)
+        changed = mutate_in_place(A, B, new, kind, rng)
+        ok3, r3 = ctx.call(name + " [history 3]", f, A)
+        if not (ok1 and ok3):
+            continue
+        if not changed:
+            ctx.ood("history")
+            continue
+        Z = O.z_image(so3.zxz_rows(np.asarray(A, dtype=float)))
+        good, w = _vec_verdict(r3, Z, name + " after an in-place update of its argument (%s)" % kind)
+        ctx.check("history", good, w)
+    # a NEW object that may reuse the id of a freed one (arrays, and Rotation objects for the Rotation-only functions)
+    A, B = cut(E1), cut(E2)
+    ctx.call("angular_distance [id reuse 1]", g.angular_distance, A, B)
+    del A
+    A = cut(E3)
+    ctx.call("angular_distance [id reuse 2]", g.angular_distance, A, B)
+    M1, M2, M3 = so3.zxz_rows(np.asarray(E1, float)), so3.zxz_rows(np.asarray(E2, float)), so3.zxz_rows(np.asarray(E3, float))
+    mk = (lambda M: ctx.srot.from_matrix(M[0])) if single else (lambda M: ctx.srot.from_matrix(M))
+    for name, f in (("cone_distance", g.cone_distance), ("inplane_distance", g.inplane_distance)):
+        r1, r2 = mk(M1), mk(M2)                    # not registered: the monitor reads these objects themselves
+        ctx.call(name + " [id reuse 1]", f, r1, r2)
+        del r1
+        r1 = mk(M3)
+        ctx.call(name + " [id reuse 2]", f, r1, r2)
+
+
+def pair_suite(ctx, rng, XA, XB, XC, Q, forms, radius=1.0, tag="", light=False, case_i=0):
     """All relational oracles on one triple of batches.  Value clauses are judged by the call monitors on the same calls."""
     g = ctx.geom
     single = forms[0].startswith("single_")
@@ -908,6 +1101,8 @@ def pair_suite(ctx, rng, XA, XB, XC, Q, forms, radius=1.0, tag="", light=False):
     EA, MEA = present(ctx, XA, "euler", rng)
     # equal orientations written as different Euler triples (360-degree shifts; phi/psi trade-off at gimbal lock)
     equal_orientation_suite(ctx, EA, alias_euler(EA, rng), single)
+    # call / in-place update of the same array / call again
+    history_suite(ctx, rng, EA, present(ctx, XB, "euler", rng)[0], present(ctx, XC, "euler", rng)[0], single, case_i)
     ctx.call("euler_angles_to_normals", g.euler_angles_to_normals, EA)
     ctx.call("euler_angles_to_normals(3,)", g.euler_angles_to_normals, EA[int(rng.integers(0, n))].copy())
     ctx.call("visualize_angles", g.visualize_angles, EA, plot_rotations=False)
@@ -927,7 +1122,7 @@ def run_rot(ctx, case):
     rng = ctx.rng(case["i"], 1)
     g = ctx.geom
     XA, XB, XC = case["tr"]
-    pair_suite(ctx, rng, XA, XB, XC, case["Q"], case["forms"], case["radius"])
+    pair_suite(ctx, rng, XA, XB, XC, case["Q"], case["forms"], case["radius"], case_i=case["i"])
     n = case["n"]
     i = case["i"]
     # paths outside the property's quantifier, driven for anchor coverage only (counted as out-of-domain by the monitors)
@@ -994,6 +1189,42 @@ def run_normals(ctx, case):
             if not good and "row" in w:
                 w["normal"] = np.asarray(v, float)[w["row"]].tolist()
             ctx.check("n2e_roundtrip", good, w)
+    # three-step history: call; update the caller-owned normals IN PLACE; call again with the same object
+    V = arg.copy()
+    is_df = case["df_meta"] is not None
+    order = ("zxz", "zzx")[case["i"] % 2]
+    cur = (lambda: V.loc[:, ["x", "y", "z"]].to_numpy(dtype=float)) if is_df else (lambda: np.asarray(V, dtype=float))
+    ok1, _ = ctx.call("normals_to_euler_angles [history 1]", g.normals_to_euler_angles, V, order)
+    before = cur().copy()
+    kind = ["negate", "cycle_columns", "roll_rows", "one_row"][(case["i"] // 2) % 4]
+    if kind == "negate":
+        newv = -before
+    elif kind == "cycle_columns":
+        newv = before[:, [2, 0, 1]]
+    elif kind == "roll_rows":
+        newv = np.roll(before, 1, axis=0) * np.array([1.0, -1.0, 1.0])
+    else:
+        newv = before.copy()
+        j = int(rng.integers(0, n))
+        newv[j] = -before[j][::-1]
+    if is_df:
+        for k, c in enumerate(["x", "y", "z"]):
+            V.loc[:, c] = newv[:, k]
+    else:
+        V[...] = newv.astype(V.dtype)
+    ok3, ang3 = ctx.call("normals_to_euler_angles [history 3]", g.normals_to_euler_angles, V, order)
+    if ok1 and ok3:
+        now = cur()
+        if np.array_equal(now, before):
+            ctx.ood("history")
+        else:
+            try:
+                e3 = decode_order(ang3, order)
+                good, w = _vec_verdict(O.z_image(so3.zxz_rows(e3)), O.unit_rows(now),
+                                       "z-axis of normals_to_euler_angles(%r) after an in-place update (%s) of its argument" % (order, kind))
+            except Exception as e:
+                good, w = False, {"problem": "result not usable: %s" % type(e).__name__}
+            ctx.check("history", good, w)
     if case["i"] % 13 == 4:                                # documented refusal, not part of the property: coverage only
         try:
             g.normals_to_euler_angles([[0.0, 0.0, 1.0]])
@@ -1022,7 +1253,7 @@ def extra(ctx):
     for k in range(24):
         XA, XB, XC = {"M": G[ia]}, {"M": G[ib]}, {"M": G[(ib + ia + k) % 24]}
         forms = [["rot", "euler", "quat"][(k + s) % 3] for s in range(3)]
-        pair_suite(ctx, rng, XA, XB, XC, G[k], forms, tag="cube", light=k > 2)
+        pair_suite(ctx, rng, XA, XB, XC, G[k], forms, tag="cube", light=k > 2, case_i=k)
         _S["reg"].clear()
     ctx.extra["cube_rotation_pairs_all"] = 576
     ctx.extra["cube_rotation_pairs_x_common_cube_rotation"] = 576 * 24
